@@ -76,8 +76,6 @@ Record WellFormed (D : tenv) : Prop := {
   wf_defmode : forall d, In d D -> td_mode d = mode_of (td_body d)
 }.
 
-(* the part of WellFormed that does not mention the recorded modes of the definitions themselves *)
-Definition DefModesAgree (D : tenv) : Prop := forall d, In d D -> td_mode d = mode_of (td_body d).
 
 (* a type used as an annotation (let / prc / assuming / typed cut) over D *)
 Definition WellFormedType (D : tenv) (t : sty) : Prop :=
